@@ -110,8 +110,10 @@ Definition handle (r : responder) (s : snap) : option (snap * list resp) :=
   end.
 
 (* State.popResponders. skip: messages whose EXPUNGE is held and whose re-adding EXISTS has not been seen yet;
-   readd: messages whose re-adding EXISTS is held as well — later flag changes of such a message concern the new
-   instance and wait behind that EXISTS *)
+   readd: messages whose EXISTS is held — the first one re-adds a message whose EXPUNGE is held; once an EXISTS is
+   held every later EXISTS is held too (messages are announced and inserted in UID order), and later flag changes of
+   such a message concern an instance the session does not have yet and wait behind that EXISTS *)
+Definition nonempty (l : list msgid) : bool := match l with [] => false | _ => true end.
 Fixpoint pop_go (permit : bool) (skip readd : list msgid) (rs : list responder) : list responder * list responder :=
   match rs with
   | [] => ([], [])
@@ -120,7 +122,7 @@ Fixpoint pop_go (permit : bool) (skip readd : list msgid) (rs : list responder) 
       match r with
       | RExpunge m => let '(p, q) := pop_go permit (m :: skip) readd t in (p, r :: q)
       | RExists m _ _ _ _ =>
-          if existsb (N.eqb m) skip
+          if existsb (N.eqb m) skip || nonempty readd
           then let '(p, q) := pop_go permit (filter (fun x => negb (x =? m)) skip) (m :: readd) t in (p, r :: q)
           else let '(p, q) := pop_go permit skip readd t in (r :: p, q)
       | RFetch m _ _ _ _ _ =>
@@ -131,7 +133,8 @@ Fixpoint pop_go (permit : bool) (skip readd : list msgid) (rs : list responder) 
   end.
 Definition pop_responders (permit : bool) (rs : list responder) := pop_go permit [] [] rs.
 
-(* the policy before the repair (flag changes were never held): kept for the refutation in Props/C02.v *)
+(* the policy before the repairs (flag changes were never held; an EXISTS behind a held one was not held): kept for the
+   refutations in Props/C02.v and Props/C01.v *)
 Fixpoint pop_go_old (skip : list msgid) (rs : list responder) : list responder * list responder :=
   match rs with
   | [] => ([], [])
